@@ -13,6 +13,7 @@
 EXTENDS Naturals, FiniteSets, Sequences, TLC, Json
 
 CONSTANTS EP, Strategies, Fallbacks,
+          CTypes,     \* GEN: what the request says its body is ("json", "form" = curl -d's default, "none" = nothing)
           Spellings   \* GEN: how the request spells the model relative to the listings ("exact", "case", "tag", "uid", "alias")
 
 VARIABLES strategy, fallback, refresh,   \* configuration
@@ -48,12 +49,14 @@ Init == /\ strategy \in Strategies /\ fallback \in Fallbacks /\ refresh \in BOOL
         \* ch: the client sends its body chunked
         \* rl: how the endpoints in D re-listed -- the model swapped for another one, or nothing listed at all
         /\ \E u \in BOOLEAN : \E rt \in {"proxy", "provider"} : \E D \in SUBSET (EP \ L) : \E ch \in BOOLEAN :
-           \E rl \in {"swap", "empty"} : \E sp \in Spellings : (D = {} => rl = "swap") /\
+           \E rl \in {"swap", "empty"} : \E sp \in Spellings : \E ct \in CTypes : (D = {} => rl = "swap") /\
+              \* a body that names its model is routed by it whatever Content-Type the client put on it
+              (ct # "json" => (sp = "exact" /\ D = {} /\ ~ch)) /\
               \* spelling variants are explored on the plain shape (nothing dropped, body not chunked); a unified id or
               \* an alias exists only with the unified registry
               (sp # "exact" => (D = {} /\ ~ch /\ L # {})) /\ (sp \in {"uid", "alias"} => (u /\ rt = "proxy")) /\
               scn = [strategy |-> strategy, fallback |-> fallback, refresh |-> refresh,
-                     H |-> H, L |-> L, unifier |-> u, route |-> rt, D |-> D, chunked |-> ch, relist |-> rl, spelling |-> sp]
+                     H |-> H, L |-> L, unifier |-> u, route |-> rt, D |-> D, chunked |-> ch, relist |-> rl, spelling |-> sp, ctype |-> ct]
 
 Send == phase = "cfg" /\ phase' = "sent" /\ UNCHANGED <<strategy, fallback, refresh, H, L, served, scn>>
 \* the request reaches backend e: only a target of the decision may be contacted (C09 safety)
